@@ -4,6 +4,7 @@ import (
 	"fmt"
 	"math"
 	"math/big"
+	"reflect"
 	"strings"
 	"unicode"
 
@@ -316,6 +317,79 @@ func init() {
 						}
 					} else {
 						out = judge(c, how, k, desc, it, pan, verdict, e, pos, filler)
+					}
+					c.Case(0, true, out)
+				}})
+			// the same arguments in other company: a factory may take a different path when no argument has a wide Go type.
+			// companions: 1 of the argument's own Go type / variable names / none (a single-element item)
+			companies := []string{"same-go-type", "variables", "alone"}
+			sp = append(sp, h.Space{Name: "go-type-x-value-x-format-x-position-x-company", Count: product(len(args), len(kinds), 3, len(companies)),
+				Describe: func(i uint64) interface{} {
+					d := unrank(i, len(args), len(kinds), 3, len(companies))
+					return fmt.Sprintf("%s(%v) into %s position %d, companions: %s", args[d[0]].typ, args[d[0]].v, kinds[d[1]], d[2], companies[d[3]])
+				},
+				Run: func(c *h.Ctx, i uint64) {
+					d := unrank(i, len(args), len(kinds), 3, len(companies))
+					a, k, pos := args[d[0]], kinds[d[1]], d[2]
+					if a.typ == "bool" || a.typ == "[]byte" || a.typ == "nil" || (companies[d[3]] == "alone" && pos != 0) {
+						c.Case(0, false, "not-applicable")
+						return
+					}
+					var verdict string
+					var e *ref.Elem
+					if a.typ == "rune" {
+						verdict, e = expectNumeric(k, goArg{v: a.v, typ: "int32", x: bigOfInt(int64('a'))})
+					} else {
+						verdict, e = expectNumeric(k, a)
+					}
+					if k == ref.B && a.typ != "int" && verdict != "refuse" {
+						verdict = "either"
+					}
+					desc := fmt.Sprintf("%s(%v)", a.typ, a.v)
+					var it ast.ItemNode
+					var pan string
+					var vals []interface{}
+					switch companies[d[3]] {
+					case "same-go-type":
+						one := reflect.ValueOf(1).Convert(reflect.TypeOf(a.v)).Interface()
+						vals = []interface{}{one, one, one}
+						vals[pos] = a.v
+						it, pan = tryItem(func() ast.ItemNode { return mkNumeric(k, vals...) })
+					case "variables":
+						vals = []interface{}{"w0", "w1", "w2"}
+						vals[pos] = a.v
+						it, pan = tryItem(func() ast.ItemNode {
+							return mkNumeric(k, vals...).FillVariables(map[string]interface{}{"w0": 1, "w1": 1, "w2": 1})
+						})
+					default:
+						it, pan = tryItem(func() ast.ItemNode { return mkNumeric(k, a.v) })
+					}
+					c.Ops(2)
+					how := "factory-" + companies[d[3]]
+					in := fmt.Sprintf("%s %s with %s", how, k, desc)
+					cls := fmt.Sprintf("%s:%s:%s", how, k, argClass(desc))
+					out := "refused"
+					switch {
+					case pan != "" && verdict == "value":
+						out = "in-range-refused"
+					case pan != "":
+					case verdict == "refuse":
+						c.Fail("out-of-domain-accepted:"+cls, in, fmt.Sprintf("accepted and stored as %s", itemString(it)))
+						out = "bad"
+					case e == nil:
+						out = "either-unjudged"
+					default:
+						filler := ref.Elem{I: 1, U: 1, F: 1}
+						want := &ref.Node{Kind: k, Elems: []ref.Elem{filler, filler, filler}}
+						if companies[d[3]] == "alone" {
+							want.Elems = want.Elems[:1]
+						}
+						want.Elems[pos] = *e
+						out = "stored-exactly"
+						if df := matchesRef(it, want); df != "" {
+							c.Fail("stored-value-differs:"+cls, in, df)
+							out = "bad"
+						}
 					}
 					c.Case(0, true, out)
 				}})
@@ -684,6 +758,86 @@ func init() {
 						c.Fail("invalid-structure-accepted", dups[i].name, itemString(it))
 					}
 					c.Case(0, true, map[bool]string{true: "valid", false: "refused"}[dups[i].ok])
+				}})
+			// renames through FillVariables (a string given for a variable of a numeric/boolean/binary item or for a list-level
+			// variable is its new name): every simultaneous assignment of {untouched, a value, each of four names} to the two
+			// variables of an item, bare and next to a sibling that holds a third name; the result is refused iff the factory
+			// would refuse the resulting names (a duplicate), otherwise the names are exactly the substituted ones, in order
+			rnKinds := []string{"I2", "U1", "U8", "F4", "B", "BOOLEAN", "L"}
+			rnOpts := []string{"", "=value", "x", "y", "z", "q"}
+			sp = append(sp, h.Space{Name: "renames-through-fill", Count: product(len(rnKinds), len(rnOpts), len(rnOpts), 2),
+				Describe: func(i uint64) interface{} {
+					d := unrank(i, len(rnKinds), len(rnOpts), len(rnOpts), 2)
+					return fmt.Sprintf("<%s x 1 y>%s filled with x:%q y:%q", rnKinds[d[0]], []string{"", " inside <L . <U1 z>>"}[d[3]], rnOpts[d[1]], rnOpts[d[2]])
+				},
+				Run: func(c *h.Ctx, i uint64) {
+					d := unrank(i, len(rnKinds), len(rnOpts), len(rnOpts), 2)
+					kind := rnKinds[d[0]]
+					var one, val interface{} = 1, 5
+					if kind == "BOOLEAN" {
+						one, val = true, false
+					}
+					var tmpl ast.ItemNode
+					switch kind {
+					case "I2":
+						tmpl = ast.NewIntNode(2, "x", one, "y")
+					case "U1":
+						tmpl = ast.NewUintNode(1, "x", one, "y")
+					case "U8":
+						tmpl = ast.NewUintNode(8, "x", one, "y")
+					case "F4":
+						tmpl = ast.NewFloatNode(4, "x", one, "y")
+					case "B":
+						tmpl = ast.NewBinaryNode("x", one, "y")
+					case "BOOLEAN":
+						tmpl = ast.NewBooleanNode("x", one, "y")
+					default:
+						tmpl = ast.NewListNode("x", ast.NewUintNode(1, 1), "y")
+						val = ast.NewUintNode(1, 5)
+					}
+					names := []string{"x", "y"}
+					if d[3] == 1 {
+						tmpl = ast.NewListNode(tmpl, ast.NewUintNode(1, "z"))
+						names = append(names, "z")
+					}
+					fill := map[string]interface{}{}
+					var want []string
+					for j, o := range []string{rnOpts[d[1]], rnOpts[d[2]]} {
+						switch o {
+						case "":
+							want = append(want, names[j])
+						case "=value":
+							fill[names[j]] = val
+						default:
+							fill[names[j]] = o
+							want = append(want, o)
+						}
+					}
+					want = append(want, names[2:]...)
+					dup := false
+					for a := range want {
+						for b := a + 1; b < len(want); b++ {
+							dup = dup || want[a] == want[b]
+						}
+					}
+					in := fmt.Sprintf("%s filled with %s", strings.ReplaceAll(itemString(tmpl), "\n", " "), showMap(fill))
+					before := itemString(tmpl)
+					it, pan := tryItem(func() ast.ItemNode { return tmpl.FillVariables(fill) })
+					c.Ops(1)
+					switch {
+					case dup && pan == "":
+						c.Fail("duplicate-name-accepted-by-rename", in, fmt.Sprintf("names would be %v; stored as %s", want, strings.ReplaceAll(itemString(it), "\n", " ")))
+					case !dup && pan != "":
+						c.Fail("valid-rename-refused", in, pan)
+					case !dup:
+						if got := it.Variables(); !eqStrings(got, want) {
+							c.Fail("rename-result", in, fmt.Sprintf("Variables()=%v want %v", got, want))
+						}
+					}
+					if itemString(tmpl) != before {
+						c.Fail("template-changed-by-rename", in, itemString(tmpl))
+					}
+					c.Case(0, true, map[bool]string{true: "duplicate-refused", false: "renamed"}[dup])
 				}})
 			// repeat counts given to ellipses: a count that denotes no expansion (negative, larger than any item may
 			// be, not a Go int) is refused - it is never dropped silently, alone or together with the other keys of the call
